@@ -1300,6 +1300,51 @@ Fixpoint enc_spec (t : ctype) (v : cval) {struct t} : option bytes :=
 
 Definition Enc (t : ctype) (v : cval) (b : bytes) : Prop := enc_spec t v = Some b.
 
+(* The same specification as an INDUCTIVE RELATION, one rule per sentence of the protocol text
+   (Props/C01.v, C01_enc_relation: [enc_spec] computes exactly this relation).
+     ER_empty         the legacy zero-length value of the types that admit it
+     ER_native        section 6, native types (table [enc_native])
+     ER_list / _set   "[int] n, followed by n elements; each element is [bytes]"
+     ER_map           "[int] n followed by n entries: [bytes] key, [bytes] value"
+     ER_vector_fixed  exactly `dim` elements of a fixed-length type, concatenated bare
+     ER_vector_var    exactly `dim` elements, each preceded by its length as an [unsigned vint]
+     ER_tuple         "a sequence of [bytes] values", null = [bytes] with n < 0; trailing components may be left out
+     ER_udt           "successive [bytes] values, one for each field (in the order defined by the type)";
+                      a field the value does not mention is null; only fields of the type *)
+Inductive EncR : ctype -> cval -> bytes -> Prop :=
+| ER_empty t : supports_empty t = true -> EncR t CEmpty []
+| ER_native n v b : enc_native n v = Some b -> EncR (TNative n) v b
+| ER_list e v l ps : vec_elems v = Some l -> Forall2 (EncR e) l ps ->
+    EncR (TList e) v (spec_int (Z.of_nat (List.length l)) ++ concat (map (fun p => spec_bytes (Some p)) ps))
+| ER_set e v l ps : vec_elems v = Some l -> Forall2 (EncR e) l ps ->
+    EncR (TSet e) v (spec_int (Z.of_nat (List.length l)) ++ concat (map (fun p => spec_bytes (Some p)) ps))
+| ER_map k e l ps :
+    Forall2 (fun (kv : cval * cval) (p : bytes * bytes) => EncR k (fst kv) (fst p) /\ EncR e (snd kv) (snd p)) l ps ->
+    EncR (TMap k e) (CMap l)
+         (spec_int (Z.of_nat (List.length l)) ++ concat (map (fun p => spec_bytes (Some (fst p)) ++ spec_bytes (Some (snd p))) ps))
+| ER_vector_fixed e d v l s ps : vec_elems v = Some l -> N.of_nat (List.length l) = d -> spec_fixed_len e = Some s ->
+    Forall2 (fun x p => EncR e x p /\ List.length p = s) l ps -> EncR (TVector e d) v (concat ps)
+| ER_vector_var e d v l ps : vec_elems v = Some l -> N.of_nat (List.length l) = d -> spec_fixed_len e = None ->
+    Forall2 (EncR e) l ps -> EncR (TVector e d) v (concat (map (fun p => spec_uvint (blen p) ++ p) ps))
+| ER_tuple ts l ps : EncItems ts l ps -> EncR (TTuple ts) (CTuple l) (concat ps)
+| ER_udt ks nm fts ks' nm' fields ps :
+    ks' = ks -> nm' = nm -> (forall f, In f fields -> In (fst f) (map fst fts)) ->
+    EncFields fields fts ps -> EncR (TUdt ks nm fts) (CUdt ks' nm' fields) (concat ps)
+with EncItems : list ctype -> list (option cval) -> list bytes -> Prop :=
+| EI_end ts : EncItems ts [] []
+| EI_null t ts l ps : EncItems ts l ps -> EncItems (t :: ts) (None :: l) (spec_bytes None :: ps)
+| EI_val t ts x l p ps : EncR t x p -> EncItems ts l ps -> EncItems (t :: ts) (Some x :: l) (spec_bytes (Some p) :: ps)
+with EncFields : list (name * option cval) -> list (name * ctype) -> list bytes -> Prop :=
+| EF_end fields : EncFields fields [] []
+| EF_null fields fname ft r ps :
+    (lookup_first fname fields = None \/ lookup_first fname fields = Some None) ->
+    EncFields fields r ps -> EncFields fields ((fname, ft) :: r) (spec_bytes None :: ps)
+| EF_val fields fname ft r x p ps :
+    lookup_first fname fields = Some (Some x) -> EncR ft x p ->
+    EncFields fields r ps -> EncFields fields ((fname, ft) :: r) (spec_bytes (Some p) :: ps).
+
+
+
 (* a bind marker: null, not set, or the [value] framing of the encoding *)
 Definition enc_cell_spec (t : ctype) (c : cell) : option bytes :=
   match c with
